@@ -7,7 +7,7 @@ Sites == {"ltop", "lc", "ld", "ll", "lg", "li", "lo", "ln", "ls"}
 \* S_bind: up to three typedefs named t (base string, units = the slot), every site, three spellings
 Small == {S \in SUBSET Slots : Cardinality(S) <= 3}
 SBind(dummy) ==
-  { [tds |-> {Td(s, "t", Q("", "string"), s, "", "") : s \in S}, site |-> x, ref |-> r, leaf |-> NoLeaf] :
+  { [tds |-> {Td(s, "t", Q("", "string"), s, "", "") : s \in S}, site |-> x, ref |-> r, leaf |-> NoLeaf, members |-> <<>>, via |-> "inline"] :
        S \in Small, x \in Sites, r \in {Q("", "t"), Q("a", "t"), Q("b", "t")} }
 \* S_chain: leaf lc { type t } -> t -> u -> v -> string, with shadowing, foreign steps, cycles, an unknown base
 Att(name, k) == CASE k = "all" -> [units |-> name \o "-units", dflt |-> name \o "-dflt", pat |-> name \o "-pat"]
@@ -17,8 +17,16 @@ Att(name, k) == CASE k = "all" -> [units |-> name \o "-units", dflt |-> name \o 
 TdA(slot, name, base, k) == LET a == Att(name, k) IN Td(slot, name, base, a.units, a.dflt, a.pat)
 SChain(AttKinds) ==
   { [tds |-> {TdA(ts, "t", tb, ta), TdA(us, "u", ub, ua), TdA("A0", "v", Q("", "string"), va)},
-     site |-> "lc", ref |-> Q("", "t"), leaf |-> [units |-> "", dflt |-> "", pat |-> lp]] :
+     site |-> "lc", ref |-> Q("", "t"), leaf |-> [units |-> "", dflt |-> "", pat |-> lp], members |-> <<>>, via |-> "inline"] :
        ts \in {"A0", "C1"}, tb \in {Q("", "string"), Q("", "u"), Q("b", "u"), Q("", "t"), Q("a", "u")},
        us \in {"A0", "C1", "B0", "BS0", "S0"}, ub \in {Q("", "string"), Q("", "v"), Q("", "t"), Q("", "nosuch"), Q("", "int32")},
        ta \in AttKinds, ua \in AttKinds, va \in AttKinds, lp \in {"", "leaf-pat", "shared-pat"} }
+\* S_union: a union of two or three member types that differ in exactly one restriction (or not at all)
+Mem(kind, attr) == [kind |-> kind, attr |-> attr]
+Members == { Mem("leafref", "p1"), Mem("leafref", "p2"), Mem("bits", "a"), Mem("bits", "b"), Mem("enumeration", "a"), Mem("enumeration", "b"),
+             Mem("string", "pat-x"), Mem("string", "pat-y"), Mem("int8", "1..5"), Mem("int8", "1..6"), Mem("string", ""), Mem("boolean", "") }
+SUnion(dummy) ==
+  { [tds |-> {}, site |-> "lc", ref |-> Q("", "union"), leaf |-> NoLeaf, members |-> ms, via |-> via] :
+       ms \in {<<a, b>> : a \in Members, b \in Members} \cup {<<a, b, a>> : a \in Members, b \in Members},
+       via \in {"inline", "typedef", "typedef2"} }
 ====
